@@ -80,6 +80,14 @@ def rule_ctor(repo, rep, only=None):
         if alias_src:
           a = alias_src[0]
           must = dom.must(st)
+          supplied = 'deprecated' in (cur.nc or ()) and not (
+              cur.c is not NOCONST and 'deprecated' in cur.c)
+          if not supplied:
+            verdict, detail = 'refuted', (
+                'self.%s is taken from the alias %s on a path where the '
+                'alias was not supplied (it may still be the placeholder '
+                "'deprecated'): the value passed as %s is lost" % (p, a, p))
+            break
           if ('warn', 'FutureWarning') in must:
             continue
           verdict, detail = 'refuted', (
@@ -101,6 +109,27 @@ def rule_ctor(repo, rep, only=None):
               sample=dict(rule=R, estimator=c.name, parameter=p,
                           paths=len(flow.returns), result=verdict)
               if npairs in (1, 50) else None)
+    # every deprecated alias maps onto a replacement when it is supplied
+    Ra = 'R-FLOW:deprecated-alias-mapped'
+    rep.rule(Ra, "for every deprecated alias some path of __init__ stores "
+             "its value in a (non-alias) parameter attribute; by "
+             "R-FLOW:ctor-param-stored that path is one where the alias was "
+             "supplied and a FutureWarning is emitted")
+    for a in aliases:
+      key = '%s.%s' % (c.name, a)
+      mapped = False
+      for (_, st, node) in flow.returns:
+        for p in params:
+          cur = st.vars.get(('self', p))
+          if p not in aliases and cur is not None and \
+                  (cur.origin == ('param', a) or cur is entry[a]):
+            mapped = True
+      if mapped:
+        rep.derived(Ra, key, site(f))
+      else:
+        rep.refuted(Ra, key, site(f), 'no path of __init__ stores the value '
+                    'of the deprecated alias %s in a parameter attribute: '
+                    'the alias is silently ignored' % a)
     bad = set()
     for (_, st, node) in flow.returns:
       for ev in dom.may(st):
